@@ -266,16 +266,16 @@ Proof.
   - apply sk_wf_from_push; [assumption | assumption | lia].
   - apply sk_below_push; [eapply sk_below_mono; [eassumption | lia] | lia].
   - eapply sk_below_mono; [eassumption | lia].
-  - intros d Hd. destruct (li_dl0 d Hd) as [D1 D2]. split; [lia|]. rewrite sk_mem_push, D2. cbn. lia.
+  - intros d Hd. destruct (li_dl0 d Hd) as [D1 D2]. split; [lia|]. rewrite (sk_mem_push _ _ _ _ _ li_skwf0), D2. cbn. lia.
   - intros s S1 S2. destruct (N.ltb_spec s (next st)).
     + destruct (li_hwm0 s S1 H) as [C|[C|C]]; [now left | right; left | now right; right].
-      rewrite sk_mem_push, C. reflexivity.
-    + right; left. rewrite sk_mem_push. apply orb_true_iff. right. lia.
+      rewrite (sk_mem_push _ _ _ _ _ li_skwf0), C. reflexivity.
+    + right; left. rewrite (sk_mem_push _ _ _ _ _ li_skwf0). apply orb_true_iff. right. lia.
   - rewrite Ep. assumption.
   - rewrite Ep. assumption.
   - right; right. exists p. rewrite Ep. split; [now left | reflexivity].
-  - intros s Hs. pose proof (sk_below_mem _ _ _ li_abbelow0 Hs). rewrite sk_mem_push, (li_absk0 s Hs). cbn. lia.
-  - intros s Hs. destruct (li_recv0 s Hs) as [R1 R2]. rewrite sk_mem_push, R1. cbn [orb].
+  - intros s Hs. pose proof (sk_below_mem _ _ _ li_abbelow0 Hs). rewrite (sk_mem_push _ _ _ _ _ li_skwf0), (li_absk0 s Hs). cbn. lia.
+  - intros s Hs. destruct (li_recv0 s Hs) as [R1 R2]. rewrite (sk_mem_push _ _ _ _ _ li_skwf0), R1. cbn [orb].
     destruct R2 as [R2|[x [X1 X2]]].
     + split; [lia | left; lia].
     + assert (e_seq p <= s).
@@ -520,7 +520,7 @@ Lemma step_I0 : forall i m h st o, I0 i m h st -> I0 i m (o :: h) (step st o).
 Proof.
   intros i m h st o [L Q]. apply (LI0_cons _ _ _ _ o) in L.
   assert (I : I0 i m (o :: h) st) by (split; assumption). clear L Q.
-  destruct o as [k s a|lo hi a| |]; cbn [step].
+  destruct o as [k s a|lo hi a| | |old]; cbn [step].
   - apply process_entry_I0; [assumption | reflexivity |]. cbn. exists (Arrive k s a). split; [now left | cbn; apply N.eqb_refl].
   - destruct (lo =? hi) eqn:E1.
     + apply process_entry_I0; [assumption | reflexivity |]. cbn. exists (ArriveRange lo hi a). split; [now left | cbn; lia].
@@ -536,6 +536,26 @@ Proof.
     + intros s S1 S2. destruct (li_hwm0 s S1 S2) as [C|[C|C]]; [now left | |]; right; right; rewrite sk_mem_app, C; [reflexivity | apply orb_true_r].
     + intros s Hs. reflexivity.
     + intros s Hs. destruct (li_recv0 s Hs) as [R1 R2]. split; [reflexivity | assumption].
+  - (* partial abandonment: the elements whose bit is set leave the skipped list *)
+    destruct I as [[] Q]. split; [|exact Q].
+    destruct (sk_wf_from_split old _ _ li_skwf0) as [W1 W2].
+    destruct (sk_below_split _ old _ li_skbelow0) as [B1 B2].
+    assert (Hsub : forall s, sk_mem s (fst (sk_split old (skipped st))) = true -> sk_mem s (skipped st) = true).
+    { intros s Hs. rewrite (sk_mem_split s old). rewrite Hs. reflexivity. }
+    constructor; cbn [initial maxp next pending received skipped abandoned delivered]; try assumption.
+    + apply sk_below_app; assumption.
+    + intros d Hd. destruct (li_dl0 d Hd) as [D1 D2]. split; [assumption|].
+      destruct (sk_mem (d_seq d) (fst (sk_split old (skipped st)))) eqn:E; [|reflexivity]. apply Hsub in E. congruence.
+    + intros s S1 S2. destruct (li_hwm0 s S1 S2) as [C|[C|C]]; [now left | |].
+      * rewrite (sk_mem_split s old) in C. apply orb_true_iff in C as [C|C]; [right; left; assumption|].
+        right; right. rewrite sk_mem_app, C. reflexivity.
+      * right; right. rewrite sk_mem_app, C. apply orb_true_r.
+    + intros s Hs. rewrite sk_mem_app in Hs. apply orb_true_iff in Hs as [Hs|Hs].
+      * eapply sk_split_disjoint; eassumption.
+      * destruct (sk_mem s (fst (sk_split old (skipped st)))) eqn:E; [|reflexivity]. apply Hsub in E.
+        pose proof (li_absk0 s Hs). congruence.
+    + intros s Hs. destruct (li_recv0 s Hs) as [R1 R2]. split; [|assumption].
+      destruct (sk_mem s (fst (sk_split old (skipped st)))) eqn:E; [|reflexivity]. apply Hsub in E. congruence.
 Qed.
 
 Lemma step_next_mono : forall i m h st o, I0 i m h st -> next st <= next (step st o).
@@ -563,7 +583,7 @@ Proof.
       pose proof (add_pending_next_mono _ _ _ _ LP). cbn in H. exact H. }
     destruct (initial st <? e_seq e) eqn:E5; [|cbn; lia].
     cbn. rewrite He. cbn. destruct (next st <=? e_seq e) eqn:E; lia. }
-  destruct o as [k s a|lo hi a| |]; cbn [step].
+  destruct o as [k s a|lo hi a| | |old]; cbn [step].
   - apply PE; [reflexivity|]. exists (Arrive k s a). split; [now left | cbn; apply N.eqb_refl].
   - destruct (lo =? hi) eqn:E1.
     + apply PE; [reflexivity|]. exists (ArriveRange lo hi a). split; [now left | cbn; lia].
@@ -580,6 +600,7 @@ Proof.
         by (destruct st; reflexivity).
       pose proof (add_pending_next_mono _ _ _ _ LP). cbn in H. exact H.
   - eapply add_pending_next_mono; eassumption.
+  - cbn. lia.
   - cbn. lia.
 Qed.
 
